@@ -218,7 +218,7 @@ pub fn property() -> Property {
     }));
     let w = Weights { edit: 36, deliver: 34, redeliver: 8, merge: 12, snapshot: 4, merge_snapshot: 6, save_restore: 0, probe: 0 };
     let pc = PlanCfg::new(w).steps(8, 34).editors(2, 4).observers(0, 1);
-    jobs.push(mk_job("MerkleReg/any-order/ops+dups+merges", 6000, 200_000, pc, Ctx::new(Disc::Any).newest(), check_merkle).floor("nontrivial", 0.05).boxed());
+    jobs.push(mk_job("MerkleReg/any-order/ops+dups+merges", 18000, 200_000, pc, Ctx::new(Disc::Any).newest(), check_merkle).floor("nontrivial", 0.05).boxed());
     Property {
         id: "C15",
         rule: "(a) Plans of write(value, children) at several replicas with children drawn from the author's heads (all / a subset), non-head known nodes, nodes written elsewhere and not yet received (orphan at origin) and children that never arrive; unique 4-byte values (distinct hashes); nodes delivered in ANY order (newest first biased) with duplicates, merges, stale merges. After every step: read().hashes() = visible nodes no visible node lists as child, num_nodes / num_orphans, node(h) for every received node, children(h), parents(h) vs the least-fixpoint model of the received set; equal received sets => ==; writing on top of all heads read => read() is exactly the new node; at the end every replica == a fresh register fed the same nodes in another order. (b) bounded-exhaustive: every DAG shape up to 5 nodes x every arrival order. Non-trivial = some node was an orphan for >=1 step and later became visible and the DAG has fan-in or fan-out >= 2; distinct = distinct Plan hash / (shape, order).".into(),
